@@ -59,6 +59,10 @@ impl Cmd {
 pub enum Step {
     Write { path: String, bytes: Vec<u8> },
     Remove { path: String },
+    /// hand edit that keeps the size: the last byte before the final newline
+    /// of the file is changed (no-op when the file is absent or empty), either
+    /// by replacing the file or by rewriting it in place
+    Tweak { path: String, in_place: bool },
     SetRule { path: String, rule: Option<Rule> },
     Cmds(Vec<Cmd>),
 }
@@ -474,6 +478,31 @@ pub fn play(
                 let _ = std::fs::remove_file(root.join(path));
                 world.files.remove(path);
                 clock += 1_000_000;
+            }
+            Step::Tweak { path, in_place } => {
+                let full = root.join(path);
+                let is_file = std::fs::symlink_metadata(&full).map_or(false, |m| m.is_file());
+                if let (true, Ok(mut b)) = (is_file, std::fs::read(&full)) {
+                    let k = if b.last() == Some(&b'\n') { b.len().wrapping_sub(2) } else { b.len().wrapping_sub(1) };
+                    if k < b.len() {
+                        b[k] = if b[k] == b'#' { b'%' } else { b'#' };
+                        *world.touch.entry(path.clone()).or_insert(0) += 1;
+                        if *in_place {
+                            std::fs::write(&full, &b).expect("user tweak");
+                            clock += 1_000_000;
+                            set_mtime(&full, clock);
+                        } else {
+                            user_write(&root, path, &b, &mut clock);
+                        }
+                        world.files.insert(
+                            path.clone(),
+                            FileState {
+                                bytes: b,
+                                owner: Owner::User,
+                            },
+                        );
+                    }
+                }
             }
             Step::SetRule { path, rule } => match rule {
                 Some(r) => {
